@@ -125,6 +125,36 @@ def rule_test_and_set(rep, fs):
                                             any(strip(x, casts=True).get('did') == e.get('did') for x in kids(core)))
                         det = 'the CAS is attempted although the expected value may already contain the bit (two threads could both report success)'
                     if ok:
+                        # a failed CAS refreshes `expected`: before the next attempt the bit must be checked again
+                        from props.parallel_guard import cond_blocks, reach_without
+                        is_bitcheck = lambda core, e=exp: core['k'] == 'BinaryOperator' and core['op'] == '&' and \
+                            any(strip(x, casts=True).get('did') == e.get('did') for x in kids(core))
+                        absent_edges = set()
+                        for b, cnode, core, neg in cond_blocks(f):
+                            if is_bitcheck(core):
+                                dst = b['s'][0] if neg else b['s'][1]
+                                if isinstance(dst, int):
+                                    absent_edges.add((b['b'], dst))
+                        casb = pathflow.block_of(f, c['node']['id'])
+                        for b, cnode, core, neg in cond_blocks(f):
+                            if core.get('id') == c['node']['id']:
+                                fail = b['s'][0] if neg else b['s'][1]
+                                if isinstance(fail, int):
+                                    succ_ = {x['b']: [y for y in x['s'] if isinstance(y, int)] for x in f.cfg['blocks']}
+                                    seen_, stack_ = set(), [fail]
+                                    while stack_:
+                                        x = stack_.pop()
+                                        if x in seen_:
+                                            continue
+                                        seen_.add(x)
+                                        for y in succ_[x]:
+                                            if (x, y) not in absent_edges:
+                                                stack_.append(y)
+                                    if casb in seen_:
+                                        ok = False
+                                        det = 'after a failed CAS (which refreshes the expected value) the exchange is retried without re-checking the bit: ' \
+                                              'if another thread set it meanwhile, CAS(old, old | bit) succeeds trivially and both threads report success'
+                    if ok:
                         break
                 rep.ob('R2-true-only-from-setting-op', label + '/return-true', ok, f.loc(r), '' if ok else det)
             elif v['k'] == 'CXXBoolLiteralExpr' and v['val'] == 0:
